@@ -118,8 +118,34 @@ def tag_lookup(tag, key):
         qvalue = tag[:i + 1]
         tag = tag[i + 1:]
         if name == key:
-            return unquote(qvalue)
+            return go_unquote(qvalue)
     return None
+
+
+def go_unquote(q):
+    """strconv.Unquote for an interpreted string literal: None when it contains an escape sequence Go does not have
+    (reflect.StructTag.Lookup then reports the key as absent)"""
+    import re as _re
+    body, out, i = q[1:-1], [], 0
+    simple = {"a": "\a", "b": "\b", "f": "\f", "n": "\n", "r": "\r", "t": "\t", "v": "\v", "\\": "\\", '"': '"'}
+    while i < len(body):
+        c = body[i]
+        if c != "\\":
+            out.append(c)
+            i += 1
+            continue
+        d = body[i + 1] if i + 1 < len(body) else ""
+        if d in simple:
+            out.append(simple[d])
+            i += 2
+            continue
+        m = _re.match(r"x([0-9a-fA-F]{2})|u([0-9a-fA-F]{4})|U([0-9a-fA-F]{8})|([0-7]{3})", body[i + 1:])
+        if not m:
+            return None
+        h = m.group(1) or m.group(2) or m.group(3)
+        out.append(chr(int(h, 16)) if h else chr(int(m.group(4), 8)))
+        i += 1 + len(m.group(0))
+    return "".join(out)
 
 
 def parse_fields(c):
@@ -152,7 +178,10 @@ def parse_fields(c):
         if raw is not None:
             val = tag_lookup(raw, "json")
             if val is None:
-                raise ExtractError(f"struct tag of `{ident}` has no well-formed json key at line {line}: {raw!r}")
+                # reflect.StructTag.Lookup fails on a tag whose value is not a valid Go string (e.g. an escape Go does not have):
+                # encoding/json then falls back to the FIELD NAME and knows no options. Reported as Go behaves.
+                val = ""
+                binding = "malformed-tag"
             name, *opts = val.split(",")
             omitempty = "omitempty" in opts
             if name:
